@@ -121,10 +121,13 @@ func (k *AES128Key) UnmarshalBinary(data []byte) error {
 		return fmt.Errorf("lorawan: %d bytes of data are expected", len(k))
 	}
 
+	// via a temporary: data may overlap the receiver (k.UnmarshalBinary(k[:]))
+	var tmp AES128Key
 	for i, v := range data {
 		// little endian
-		k[len(k)-i-1] = v
+		tmp[len(k)-i-1] = v
 	}
+	*k = tmp
 
 	return nil
 }
